@@ -353,10 +353,12 @@ impl BuiltInFunction {
                 };
 
                 {
+                    // copy the elements first: the argument keeps its contents, and it may
+                    // be the receiver itself (or an alias of it).
+                    let added = v_add.0.borrow().to_vec();
                     let mut v_original = v_original_shared.0.borrow_mut();
-                    let mut v_add = v_add.0.borrow_mut();
 
-                    v_original.append(v_add.as_mut());
+                    v_original.extend(added);
                 }
 
                 Ok((Some(Primitive::Vector(v_original_shared.clone())), None))
